@@ -683,7 +683,11 @@ class Connection(ExportImport):
         # by another thread, so the risk of a reread is pretty low.
         # It's really not worth the effort to pursue this.
 
-        self._cache.invalidate(self._modified)
+        # New objects have no committed state to go back to: they are
+        # disowned with the state they have (_commit_savepoint lists what
+        # the savepoints hold, new objects included, as modified).
+        self._cache.invalidate([oid for oid in self._modified
+                                if oid not in self._creating])
         self._invalidate_creating()
         while self._added:
             oid, obj = self._added.popitem()
@@ -1056,6 +1060,13 @@ class Connection(ExportImport):
         """Commit all changes made in savepoints and begin 2-phase commit
         """
         src = self._savepoint_storage
+        # A new object that a rollback has made a ghost has its only state
+        # in the savepoint storage, which goes away below: load it, so that
+        # the object can be disowned with its state if this commit fails.
+        for oid in src.creating:
+            obj = self._cache.get(oid)
+            if obj is not None and obj._p_changed is None:
+                obj._p_activate()
         self._storage = self._normal_storage
         self._savepoint_storage = None
         try:
